@@ -18,7 +18,7 @@ import sys
 import tempfile
 import xml.etree.ElementTree as et
 
-VAL = "/tmp/val"
+VAL = os.environ.get("TTV_VAL", "/tmp/val")
 ENV = dict(os.environ, PYTHONPATH=f"{VAL}/src/main/python")
 
 
